@@ -107,7 +107,10 @@ class TDRedfieldRelaxationTensor(RedfieldRelaxationTensor, TimeDependent):
         Lm = numpy.zeros((Nt, Nb, Na, Na), dtype=numpy.complex128)
         for ms in range(Nb):
             #for ns in range(Nb):
-            if not multi_ex:
+            # bath components are taken as mutually uncorrelated, also beyond
+            # the single-exciton band (the system parts sbi.KK contain the
+            # projections on the multi-exciton states)
+            if True:
                 ns = ms
                 
                 # correlation function of site ns (if ns == ms)
